@@ -13,7 +13,7 @@ pub struct LVar { /// name used inside the expression
 
 pub fn lv(local: &str, global: &str, kind: &str) -> LVar { LVar { local: local.into(), global: global.into(), kind: kind.into() } }
 
-pub const CONTEXTS: [&str; 4] = ["function-parameters", "match-arm-bindings", "matrix-comprehension-generators", "set-comprehension-generators"];
+pub const CONTEXTS: [&str; 5] = ["function-parameters", "match-arm-bindings", "matrix-comprehension-generators", "set-comprehension-generators", "machine-state-variables"];
 
 /// (element kind, flattened elements) of a value: what a comprehension keeps of the value of its body
 pub fn flat(c: &Canon) -> (String, Vec<String>) {
@@ -47,6 +47,16 @@ pub fn eval_in_contexts(s: &mut Session, uniq: usize, vars: &[LVar], expr: &str,
     let o = if ok { s.run(&stmt) } else { Outcome::Error("tuple-of-operands-rejected".into()) };
     res.push((CONTEXTS[1], format!("{}{}", pre.map(|p| format!("{} ;; ", p)).unwrap_or_default(), stmt), o));
   }
+  // state variables of a machine: the expression is the payload of the transition into the output state. A machine that rejects the
+  // declaration or the operand kinds is not judged (value outcomes only): machines restrict payload kinds more than the other contexts do.
+  {
+    let decl = vars.iter().map(|v| format!("{}<{}>", v.local, v.kind)).collect::<Vec<_>>().join(", ");
+    let def = format!("#Lcq{u}({d}) => <{o}>\n  ├ :A({d})\n  └ :D(r<{o}>).\n\n#Lcq{u}({d}) -> :A({n})\n  :A({n}) -> :D({e})\n  :D(r) => r.", u = uniq, d = decl, o = out_kind, n = names.join(", "), e = expr);
+    let call = format!("lcr{}q := #Lcq{}({})", uniq, uniq, vars.iter().map(|v| v.global.clone()).collect::<Vec<_>>().join(", "));
+    let d = s.run(&def);
+    let o = if d.is_value() { s.run(&call) } else { d };
+    if o.is_value() || matches!(o, Outcome::Panic(_)) { res.push((CONTEXTS[4], format!("{} ;; {}", def.replace('\n', " ⏎ "), call), o)); }
+  }
   if scalar_operands {
     let gens = |open: char, close: char| vars.iter().map(|v| format!("{} <- {}{}{}", v.local, open, v.global, close)).collect::<Vec<_>>().join(", ");
     let stmt = format!("lcr{}c := [ {} | {} ]", uniq, expr, gens('[', ']'));
@@ -74,7 +84,8 @@ pub fn differs(base: &Outcome, ctx: &'static str, got: &Outcome) -> Option<Strin
       }
       // a comprehension keeps the elements of a matrix-valued body, in an order of its own: compared as a multiset
       let (be, ge) = if ctx == CONTEXTS[2] && matches!(b, Canon::Matrix(_, r, c, _, _) if *r > 1 && *c > 1) { let (mut x, mut y) = (be, ge); x.sort(); y.sort(); (x, y) } else { (be, ge) };
-      if be == ge && (bk == gk || ge.is_empty()) { None } else { Some(format!("over globals {} , in this context {}", b.short(), g.short())) }
+      // a bracketed payload of a machine transition is an array *pattern* rebuilt into a matrix of values: its elements are judged, not its kind
+      if be == ge && (bk == gk || ge.is_empty() || (ctx == CONTEXTS[4] && gk == "value")) { None } else { Some(format!("over globals {} , in this context {}", b.short(), g.short())) }
     }
     (Outcome::Value(b), other) => Some(format!("over globals {} , in this context {}", b.short(), other.short())),
     (_, Outcome::Panic(m)) => Some(format!("host panic: {}", m)),
@@ -103,6 +114,8 @@ pub fn judge_templates(id: &str, s: &mut Session, tpls: &[Tpl], uniq0: usize, pr
     let plain = matches!(bc, Canon::Num(..) | Canon::Bool(..) | Canon::Str(..) | Canon::Matrix(..));
     for (ctx, text, o) in res {
       if ctx == CONTEXTS[0] && !t.fn_ok { continue; }
+      // a bracketed transition payload is an array pattern (rebuilt element by element), not a matrix literal
+      if ctx == CONTEXTS[4] && t.local.trim_start().starts_with('[') { continue; }
       // a matrix comprehension can only collect numbers, Booleans, strings and matrices of them
       if ctx == CONTEXTS[2] && !plain { continue; }
       out.evaluations += 1;
